@@ -51,7 +51,8 @@ pub fn load_known_findings() -> Vec<Finding> {
         Ok(t) => t,
         Err(_) => return vec![],
     };
-    let v: Value = serde_json::from_str(&txt).expect("MACHINERY: known_findings.json is not valid JSON");
+    let v: Value =
+        serde_json::from_str(&txt).expect("MACHINERY: known_findings.json is not valid JSON");
     v["findings"]
         .as_array()
         .map(|a| {
@@ -74,7 +75,11 @@ pub struct RunInfo {
 }
 
 /// Prints verdict lines, writes replay files; returns the number of unlisted violations.
-pub fn conclude(info: &RunInfo, violations: &[Violation], extra_counts: &BTreeMap<String, u64>) -> (usize, usize) {
+pub fn conclude(
+    info: &RunInfo,
+    violations: &[Violation],
+    extra_counts: &BTreeMap<String, u64>,
+) -> (usize, usize) {
     let known = load_known_findings();
     // a panic while the harness wrote initial contents with ordinary single-level calls
     let setup: Vec<Violation> = {
@@ -109,7 +114,10 @@ pub fn conclude(info: &RunInfo, violations: &[Violation], extra_counts: &BTreeMa
     let mut matched: BTreeMap<usize, usize> = BTreeMap::new();
     let mut fresh: Vec<&Violation> = vec![];
     for (sig, v) in &by_sig {
-        match known.iter().position(|k| k.property == v.property && glob_match(&k.pattern, sig)) {
+        match known
+            .iter()
+            .position(|k| k.property == v.property && glob_match(&k.pattern, sig))
+        {
             Some(i) => *matched.entry(i).or_insert(0) += counts[sig],
             None => fresh.push(v),
         }
@@ -122,13 +130,21 @@ pub fn conclude(info: &RunInfo, violations: &[Violation], extra_counts: &BTreeMa
     }
     if std::env::var("VFSMC_LIST_SIGS").is_ok() {
         for (sig, v) in &by_sig {
-            println!("SIG {:6} {} :: {}", counts[sig], sig, v.summary.chars().take(300).collect::<String>());
+            println!(
+                "SIG {:6} {} :: {}",
+                counts[sig],
+                sig,
+                v.summary.chars().take(300).collect::<String>()
+            );
         }
     }
     let _ = std::fs::create_dir_all("/verif/replays");
     for (n, v) in fresh.iter().enumerate() {
         if n >= 25 {
-            println!("... {} further distinct violation signatures not listed", fresh.len() - n);
+            println!(
+                "... {} further distinct violation signatures not listed",
+                fresh.len() - n
+            );
             break;
         }
         let h = crate::explore::hash128(v.signature.as_bytes()) as u32;
@@ -185,7 +201,8 @@ pub fn write_evidence(
     let dir = std::env::var("VFSMC_EVIDENCE_DIR").unwrap_or_else(|_| "/verif/evidence".to_string());
     let _ = std::fs::create_dir_all(&dir);
     let path = format!("{}/{}.json", dir, info.property);
-    std::fs::write(&path, serde_json::to_string_pretty(&ev).unwrap()).expect("MACHINERY: cannot write evidence");
+    std::fs::write(&path, serde_json::to_string_pretty(&ev).unwrap())
+        .expect("MACHINERY: cannot write evidence");
 }
 
 /// Coverage object for BFS based checks from per-configuration statistics.
